@@ -189,7 +189,7 @@ def stepSites (w : List String) : Option String :=
         | some [a, b, c, d] => some { x1 := a, y1 := b, x2 := c, y2 := d }
         | _ => none
     match rs with
-    | some rs => some (showO (fun (_ : Int × Int) => "ok") (mergeMatrix rs))
+    | some rs => some ("ok " ++ toString (normalise rs []).length)
     | none => some "bad-op"
   | ["ch", len, shift, counts] =>
     match len.toNat?, shift.toNat?, (counts.splitOn ",").mapM (·.toNat?) with
